@@ -22,6 +22,7 @@ CONSTANTS
   MaxGen = 2
   MaxDup = 0
   Engine = "engine"
+  GateUsage = FALSE
 INIT Init
 NEXT Next
 VIEW View
